@@ -180,7 +180,8 @@ def rule_from_typed(ctx):
     facts = ctx.facts
     ctx.rule(rule, "MatrixPattern::from_typed has an explicit arm for every ValuePattern former: Hole/Var/Alias => Wildcard; Named / Ctor / "
                    "Triv / VCons / SCons => the corresponding matrix pattern over the translated sub-patterns; the product spine is a "
-                   "right fold of binary products ending in the tail")
+                   "right fold of binary products ending in the tail, and a package has one Package layer per witness (so the grouping "
+                   "of a telescope, `(A, B, p)` or `(A, (B, p))`, does not change the row shape)")
     fn = CV + "MatrixPattern::from_typed"
     h, m = _arms(ctx, rule, fn)
     loc = facts.bodies()[fn]["loc"]
@@ -205,7 +206,9 @@ def rule_from_typed(ctx):
         "Triv": r"^%sUnit$" % re.escape(MP),
         "Named": r"^\(%sNamed \$Named\.0/Named\.0 \(%s \$Named\.0/Named\.1 \$P1\)\)$" % (re.escape(MP), re.escape(FT)),
         "Ctor": r"^\(%sConstructor data=\(core::option::Option::<T>::expect \(.*::get \(\. \$P1 data_pat_hints\) \$P0\) [^)]*\) name=\$Ctor\.0/Ctor\.0 argument=\(%s \$Ctor\.0/Ctor\.1 \$P1\)\)$" % (re.escape(MP), re.escape(FT)),
-        "SCons": r"^\(%sPackage \(%s \$SCons\.0/ConsN\.1 \$P1\)\)$" % (re.escape(MP), re.escape(FT)),
+        # one Package layer per witness (F57): a fold over the witnesses that wraps the translated tail
+        "SCons": r"^\(<.*? as core::iter::traits::iterator::Iterator>::fold (\(core::iter::traits::iterator::Iterator::rev )?\$SCons\.0/ConsN\.0\)? "
+                 r"\(%s \$SCons\.0/ConsN\.1 \$P1\) \(closure \(%sPackage \$c0\.0\)\)\)$" % (re.escape(FT), re.escape(MP)),
         "VCons": r"^\(\S* as core::iter::traits::iterator::Iterator>::fold \(core::iter::traits::iterator::Iterator::rev \$VCons\.0/ConsN\.0\) \(%s \$VCons\.0/ConsN\.1 \$P1\) "
                  r"\(closure \(%sProduct \(.*\(array \(%s \(each \(core::iter::traits::iterator::Iterator::rev \$VCons\.0/ConsN\.0\)\) \$P1\) \$c0\.0\)\)+$" % (re.escape(FT), re.escape(MP), re.escape(FT)),
     }
@@ -293,8 +296,6 @@ def rule_hints(ctx):
     sites = 0
     for p, hs in sorted(hints.items()):
         file = facts.bodies()[p]["loc"][0]
-        if "/elaborate/" in file:
-            continue
         hh = facts.hir(p)
         par = {}
         st = [(hh["body"], None)]
@@ -322,11 +323,62 @@ def rule_hints(ctx):
                 continue    # the value-constructor hint (unconditional, data id from the judgment): not a scrutinee hint
             sites += 1
             scr = A.sexpr(cond["scrut"], env) if H.kind(cond) == "Match" else A.sexpr(H.peel(cond["c"])["init"], env) if H.kind(H.peel(cond["c"])) == "LetExpr" else "?"
-            ok = "type_filled_k" in scr and "unroll_k" in scr
+            ok = re.search(r"type_filled(_k)?\b", scr) is not None and re.search(r"unroll(_k)?\b", scr) is not None
             ctx.check(ok, rule, "scrutinee:%s" % _short(p), "%s records the scrutinee's data hint from %s; expected the Data arm of "
                       "type_filled_k(unroll_k(scrutinee type))" % (_short(p), scr[:160]), [file, x.get("ln")],
                       detail={"fn": _short(p), "hint_from": "Type::Data arm of the unrolled, filled scrutinee type"})
     ctx.floor(rule, "scrutinee hint sites", sites, 2)
+    rule_monadic_translation(ctx)
+
+
+def rule_monadic_translation(ctx):
+    """the monadic translation runs DURING checking, before the coverage validator: its Match / CoMatch nodes are validated too"""
+    rule = "monadic-translation"
+    facts = ctx.facts
+    ctx.rule(rule, "computation_translation (the `@[monadic]` elaboration, which runs while the program is checked, before the coverage "
+                   "validator) (a) records the data hint of the TRANSLATED scrutinee of a match, so that the validator can decide a match "
+                   "without arms (F56); (b) looks the arm of a destructor up only after testing that every destructor of the codata "
+                   "type has an arm, reporting a diagnostic otherwise: the comatch has not been validated yet (F55: `unwrap` panicked)")
+    fn = "zydeco_statics::elaborate::monadic::computation_translation"
+    h = facts.hir(fn)
+    if h is None:
+        ctx.anchor_lost(rule, fn + " not found")
+        return
+    loc = facts.bodies()[fn]["loc"]
+    arms = {}
+    for m in H.walk(h["body"]):
+        if H.kind(m) == "Match" and not m.get("src"):
+            for a in m["arms"]:
+                for v in H.pat_variants(a["pat"]):
+                    if v.startswith("zydeco_statics::syntax::Computation::"):
+                        arms[v.split("::")[-1]] = a
+    ctx.floor(rule, "arms of computation_translation", len(arms), 10)
+    a = arms.get("Match")
+    if a is None:
+        ctx.anchor_lost(rule, "no arm for Computation::Match")
+    else:
+        env = A.ArmEnv(); env.strip = True; env.bind_params(h); env.absorb(a["body"])
+        hint = [n for n in H.walk(a["body"]) if H.kind(n) == "MethodCall" and n["name"] in ("insert_new", "upsert")
+                and H.kind(H.peel(n["recv"])) == "Field" and H.peel(n["recv"])["name"] == "data_hints"]
+        keys = [A.sexpr(n["args"][0], env) for n in hint]
+        ok = any("mbuild" in k and "TermLift" in k for k in keys)
+        ctx.check(ok, rule, "match:scrutinee-hint", "the translation of a match records no data hint for the translated scrutinee (%s): "
+                  "inside `@[monadic]` an exhaustive `match v end` on an empty data type is rejected with the missing pattern `_`"
+                  % [k[:80] for k in keys], [loc[0], a["ln"]], detail={"hint keyed by": [k[:80] for k in keys]})
+    a = arms.get("CoMatch")
+    if a is None:
+        ctx.anchor_lost(rule, "no arm for Computation::CoMatch")
+    else:
+        lookups = [n for n in H.walk(a["body"]) if H.kind(n) == "MethodCall" and n["name"] in ("unwrap", "expect")
+                   and any(H.kind(y) == "MethodCall" and y["name"] in ("get", "remove") for y in H.walk(n["recv"]))]
+        index = [n for n in H.walk(a["body"]) if H.kind(n) == "Index"]
+        tests = [n for n in H.walk(a["body"]) if H.kind(n) == "If" and any(H.kind(y) == "MethodCall" and y["name"] == "contains_key" for y in H.walk(n.get("c") or {}))
+                 and any(H.kind(y) in ("Call", "MethodCall") and re.search(r"Tycker<'\w+>>::err(_k)?$|Tycker::<'\w+>::err(_k)?$", H.callee(y) or "") for y in H.walk(n.get("t") or n.get("then") or n))]
+        ok = (not lookups) or bool(tests)
+        ctx.check(ok, rule, "comatch:destructor-lookup", "the translation of a comatch unwraps the arm looked up for each destructor of the codata "
+                  "type (%d lookup(s)) without first reporting a destructor that has no arm (%d completeness test(s)): `{ comatch | .left "
+                  "=> .. end } : Thk Choice` with a second destructor panics the checker" % (len(lookups), len(tests)),
+                  [loc[0], a["ln"]], detail={"lookups": len(lookups), "completeness_tests": len(tests)})
 
 
 def _short(p):
